@@ -109,6 +109,7 @@ type env struct {
 	nconn  int
 	epoch  int
 	probes int
+	nrace  int
 	lost0  int64
 	// a missing reply becomes a finding only after a wait no load explains; the drivers afford that a few times
 	patientLeft int
@@ -160,6 +161,19 @@ func (e *env) dial() *xc02.Client {
 	vh.Must(err, "dial proxy")
 	cl.Service = e.svc
 	return cl
+}
+
+// racePoint arms the point at which the answer of a race / racegone step is held, in turn: right after the response was
+// taken out of the client stream table, before it is handed to its receiver (xsc.resp.taken: the earliest point of the
+// window the model's step describes), or inside the proxy's handler before it touches the request (us.recv.guard)
+func (e *env) racePoint() string {
+	e.nrace++
+	if e.nrace%2 == 0 {
+		e.g.HoldOnce("xsc.resp.taken")
+		return "xsc.resp.taken"
+	}
+	e.g.Hold("us.recv.guard")
+	return "us.recv.guard"
 }
 
 func (e *env) freshID() uint32 { e.fresh++; return 1000000 + e.fresh }
@@ -317,9 +331,9 @@ func (e *env) runHop(name string, c hcase) map[string]interface{} {
 				diverged++
 				continue
 			}
-			e.g.Hold("us.recv.guard")
-			if !e.up.ReplyBody(q.arr.Conn, q.arr.UID, q.tok, "ans", q.bare) || !e.g.AwaitArrive("us.recv.guard", e.w(0)) {
-				e.g.Release("us.recv.guard")
+			pt := e.racePoint()
+			if !e.up.ReplyBody(q.arr.Conn, q.arr.UID, q.tok, "ans", q.bare) || !e.g.AwaitArrive(pt, e.w(0)) {
+				e.g.Release(pt)
 				diverged++
 				continue
 			}
@@ -332,7 +346,7 @@ func (e *env) runHop(name string, c hcase) map[string]interface{} {
 				f.arr = e.up.WaitArrival(f.tok, e.w(0), f.poll)
 				fill = append(fill, f)
 			}
-			e.g.Release("us.recv.guard")
+			e.g.Release(pt)
 			extra = append(extra, fill...)
 			for _, f := range fill {
 				if f.arr != nil && !f.poll() {
@@ -351,9 +365,9 @@ func (e *env) runHop(name string, c hcase) map[string]interface{} {
 				diverged++
 				continue
 			}
-			e.g.Hold("us.recv.guard")
-			if !e.up.ReplyBody(q.arr.Conn, q.arr.UID, q.tok, "ans", q.bare) || !e.g.AwaitArrive("us.recv.guard", e.w(0)) {
-				e.g.Release("us.recv.guard")
+			pt := e.racePoint()
+			if !e.up.ReplyBody(q.arr.Conn, q.arr.UID, q.tok, "ans", q.bare) || !e.g.AwaitArrive(pt, e.w(0)) {
+				e.g.Release(pt)
 				diverged++
 				continue
 			}
@@ -393,7 +407,7 @@ func (e *env) runHop(name string, c hcase) map[string]interface{} {
 				f.arr = e.up.WaitArrival(f.tok, e.w(0), f.poll)
 				fill = append(fill, f)
 			}
-			e.g.Release("us.recv.guard")
+			e.g.Release(pt)
 			extra = append(extra, fill...)
 			for _, f := range fill {
 				if f.arr != nil && !f.poll() {
